@@ -1,6 +1,6 @@
 """Table of hashing methods: real units, kernel models, loop caps, output shape."""
 from vf.core import Query
-from .common import cstr
+from .common import cstr, lib_loops
 
 CRYPT_C = ("crypt.c", [], {"export_static": True})
 BASE_UNITS = [CRYPT_C, "util-make-failure-token.c", "util-xstrcpy.c", "util-base64.c"]
@@ -8,7 +8,8 @@ BASE_UNITS = [CRYPT_C, "util-make-failure-token.c", "util-xstrcpy.c", "util-base
 
 class M:
     def __init__(self, name, fn, prefix, units, mdefs, hash_len, alpha=0, sep=1,
-                 caps=(), max_s=24, precond=None, shape=None, extra_loops=(), max_p=16):
+                 caps=(), max_s=24, precond=None, shape=None, extra_loops=(), max_p=16, can_fail=True):
+        self.can_fail = can_fail
         self.name = name
         self.fn = fn
         self.prefix = prefix
@@ -29,16 +30,21 @@ DES_PRE = ("if (in_slen >= 1) __CPROVER_assume(in_slen >= 2 && des_ch(in_setting
 
 METHODS = [
     M("md5crypt", "crypt_md5crypt_rn", "$1$", ["crypt-md5.c"], ["M_MD5"], 22,
-      caps=[("crypt_md5crypt_rn", r"cnt < 1000")], max_s=16),
+      caps=[("crypt_md5crypt_rn", r"cnt < 1000")], max_s=16, can_fail=False,
+      extra_loops=[("crypt_md5crypt_rn", r"cnt > 16", 3, False), ("crypt_md5crypt_rn", r"cnt >>= 1", 7, False)]),
     M("sha256crypt", "crypt_sha256crypt_rn", "$5$", ["crypt-sha256.c"], ["M_SHA256"], 43,
-      caps=[("crypt_sha256crypt_rn", r"cnt < rounds"), ("crypt_sha256crypt_rn", r"result\[0\]")], max_s=40),
+      caps=[("crypt_sha256crypt_rn", r"cnt < rounds"), ("crypt_sha256crypt_rn", r"result\[0\]")], max_s=40,
+      extra_loops=[("recycled", None, 2, False), ("crypt_sha256crypt_rn", r"cnt > 32", 2, False),
+                   ("crypt_sha256crypt_rn", r"cnt >>= 1", 7, False)], can_fail=True),
     M("sha512crypt", "crypt_sha512crypt_rn", "$6$", ["crypt-sha512.c"], ["M_SHA512"], 86,
-      caps=[("crypt_sha512crypt_rn", r"cnt < rounds"), ("crypt_sha512crypt_rn", r"result\[0\]")], max_s=40),
+      caps=[("crypt_sha512crypt_rn", r"cnt < rounds"), ("crypt_sha512crypt_rn", r"result\[0\]")], max_s=40,
+      extra_loops=[("recycled", None, 2, False), ("crypt_sha512crypt_rn", r"cnt > 64", 2, False),
+                   ("crypt_sha512crypt_rn", r"cnt >>= 1", 7, False)], can_fail=True),
     M("sunmd5", "crypt_sunmd5_rn", "$md5", ["crypt-sunmd5.c"], ["M_MD5"], 22,
       caps=[("crypt_sunmd5_rn", r"i < nrounds")], max_s=32),
     M("sha1crypt", "crypt_sha1crypt_rn", "$sha1$", ["crypt-pbkdf1-sha1.c"], ["M_HMAC_SHA1"], 28,
       caps=[("crypt_sha1crypt_rn", r"i < iterations")], max_s=36),
-    M("nt", "crypt_nt_rn", "$3$", ["crypt-nthash.c"], ["M_MD4"], 32, alpha=1, max_s=8),
+    M("nt", "crypt_nt_rn", "$3$", ["crypt-nthash.c"], ["M_MD4"], 32, alpha=1, max_s=8, can_fail=False),
     M("bigcrypt", "crypt_bigcrypt_rn", "", ["crypt-des.c"], ["M_DES"], 11, sep=0, max_s=24,
       precond=DES_PRE, max_p=20),
     M("descrypt", "crypt_descrypt_rn", "", ["crypt-des.c"], ["M_DES"], 11, sep=0, max_s=16,
@@ -59,7 +65,7 @@ DES_CH = ("static int des_ch(char c){return (c>='a'&&c<='z')||(c>='A'&&c<='Z')||
 
 def method_query(m, qname, harness="crypt_method.c", max_s=None, max_p=None, cap_k=3,
                  at_base=False, model="digest_havoc.c", extra_defs=(), timeout=900, unwind=None,
-                 extra_models=(), harness_loop=800):
+                 extra_models=(), harness_loop=400):
     max_s = m.max_s if max_s is None else max_s
     max_p = m.max_p if max_p is None else max_p
     defs = ["METHOD_FN=" + m.fn, "PREFIX_STR=" + cstr(m.prefix), "MAX_S=%d" % max_s,
@@ -72,13 +78,19 @@ def method_query(m, qname, harness="crypt_method.c", max_s=None, max_p=None, cap
         defs.append("SHAPE_CHECK=" + m.shape)
     if at_base:
         defs.append("SETTING_AT_BASE")
+    if not m.can_fail:
+        defs.append("EXPECT_NO_FAILURE")
     loops = [("^harness$", None, harness_loop, False)]
     for freg, sreg in m.caps:
         loops.append((freg, sreg, cap_k, True))
     loops += m.extra_loops
+    out_bound = len(m.prefix) + max_s + m.hash_len + 24
+    loops += lib_loops(out_bound)
     q = Query(qname, harness, units=BASE_UNITS + m.units, models=["libc.c", model] + list(extra_models),
-              defs=defs, unwind=unwind or (max(max_s, max_p) + len(m.prefix) + 6), loops=loops,
+              defs=defs, unwind=unwind or max(max_p + 2, 20), loops=loops,
               timeout=timeout)
+    q.loops_optional = True
+    q.str_bound = out_bound
     q.replay_kind = "crypt"
     q.replay_prefix = m.prefix
     return q
